@@ -752,7 +752,7 @@ class Translator:
         self.tp21()
         self.ca()
         self.diag()
-        for extra in ('tp22', 'dm14', 'skel', 'flow'):
+        for extra in ('tp22', 'dm14', 'skel', 'flow', 'order'):
             if hasattr(self, extra + '_items'):
                 getattr(self, extra + '_items')()
 
